@@ -28,7 +28,7 @@ COMPONENTS = {'real': ['kawin.solver.Solver.DESolver', 'kawin.solver.Iterators',
 
 def plan(tier):
     if tier == 'quick':
-        return dict(runs=3000, batch=50, hard_timeout=300, soft_timeout=20)
+        return dict(runs=2000, batch=25, hard_timeout=600, soft_timeout=60)
     return dict(runs=120000, batch=200, hard_timeout=900, soft_timeout=30)
 
 
@@ -63,7 +63,7 @@ def generate(rng, tier, index):
     for _ in range(ncalls):
         for _try in range(50):
             T = 10 ** rng.uniform(-6, 6)
-            minf = 10 ** rng.uniform(-4, math.log10(0.5))
+            minf = 10 ** rng.uniform(-3.3 if tier == 'quick' else -4, math.log10(0.5))
             if minf * T >= 8 * math.ulp(t + T):
                 break
         else:
